@@ -48,9 +48,11 @@ SOLO_INV = ["ObsIsDefined", "StepRewardIsLBDecrease", "TelescopesRunning", "Tele
 TRACE_INV = ["M_Driver", "M_Ends", "M_DObs", "M_DStep", "M_DTele", "M_DTerm", "M_DPad", "M_DBound", "DConf", "End"]
 # what PART 2 of DenseTSP.tla assumes of the code at hand (DenseRewardTSPEnv._step): flip both after a repair of the
 # environment (first step free, closing leg charged on the finishing step)
-DENSE_TSP_QUIRKS = {"q_first0": True, "q_noclose": True}
-if os.environ.get("VERIF_DENSE_TSP_REPAIRED"):
-    DENSE_TSP_QUIRKS = {"q_first0": False, "q_noclose": False}
+# the code-shaped model of DenseRewardTSPEnv: both former defects (first step charged d(0, a1); closing leg never charged) are
+# repaired in /repo (finding F45), so the model carries neither; VERIF_DENSE_TSP_QUIRKS=1 models the pre-repair code
+DENSE_TSP_QUIRKS = {"q_first0": False, "q_noclose": False}
+if os.environ.get("VERIF_DENSE_TSP_QUIRKS"):
+    DENSE_TSP_QUIRKS = {"q_first0": True, "q_noclose": True}
 MAX_WITNESSES = 25      # per (env, monitor) class
 
 
@@ -203,7 +205,7 @@ class JSSPStepAd(FJSPStepAd, JSSP):
     jssp = True
     torchrl = True          # the way tests/test_training.py::test_l2d_ppo builds it
     max_ops = {"quick": 4, "thorough": 5}
-    stride = {"quick": 1, "thorough": 1}
+    stride = {"quick": 1, "thorough": 2}
 
     def _mk(self, inst):
         from rl4co.envs.scheduling.jssp.env import JSSPEnv
@@ -355,7 +357,7 @@ def batch_records(ad, eps, tier, seed):
     done = [e for e in eps if e["end"] == "done"]
     if not done:
         return []
-    m = 12 if tier == "quick" else 200
+    m = 12 if tier == "quick" else 120
     recs = []
     base_mode = ad.torchrl
     ad.torchrl = not base_mode      # scheduling: the other step interface (RL4COEnvBase.step with / without _torchrl_mode)
